@@ -12,14 +12,6 @@ broadcast use {conv_axioms::axiom_from_empty_domain, seq_lemmas::lemma_seq_holds
 
 pub assume_specification [i64::is_positive] (x: i64) -> (r: bool) ensures r == (x > 0);
 
-impl vstd::std_specs::convert::FromSpecImpl<Vec<Predicate>> for PropositionalConjunction {
-    open spec fn obeys_from_spec() -> bool { true }
-    open spec fn from_spec(v: Vec<Predicate>) -> Self { PropositionalConjunction { predicates_in_conjunction: v } }
-}
-impl From<Vec<Predicate>> for PropositionalConjunction {
-    fn from(v: Vec<Predicate>) -> (r: Self) { PropositionalConjunction { predicates_in_conjunction: v } }
-}
-
 // A-VIEWRANGE: the value of a variable / view is an i32
 #[verifier::external_body]
 pub proof fn axiom_eval_in_i32<V: IntegerVariable>(v: &V, a: Asg)
